@@ -164,6 +164,7 @@ func c25NewKeys() *c25Keys {
 	for _, ia := range c25PoolAll {
 		k.priv[ia] = gen()
 	}
+	k.priv[c25Local] = gen()
 	k.rogue = gen()
 	return k
 }
@@ -466,11 +467,18 @@ func TestC25(t *testing.T) {
 		if len(cur) == maxLen {
 			return
 		}
-		for j := range pool {
+		for j := 0; j <= len(pool); j++ { // index len(pool) = the local AS itself
 			gen(append(cur, j))
 		}
 	}
 	gen(nil)
+	seqPool := append(append([]addr.IA{}, pool...), c25Local)
+	// configurations for beacons whose storing is not judged (they contain the local AS) and for beacons put
+	// directly into the store: both store kinds x propagation policy {ISD loops allowed, forbidden, forbidden + limits}
+	var locCfgs []c25Config
+	for _, pf := range []c25Filter{menu[0], menu[6], menu[7]} {
+		locCfgs = append(locCfgs, c25Config{true, []c25Filter{pf, menu[0]}}, c25Config{false, []c25Filter{pf, menu[0], menu[0]}})
+	}
 
 	r.Rule = fmt.Sprintf("policy part: EVERY AS sequence of length 1..%d over %d ISD-ASes in %d ISDs x EVERY assignment of a "+
 		"filter menu of %d filters to the policies of a core (2) and a non-core (3) store, received validly; admission part: "+
@@ -523,10 +531,15 @@ func TestC25(t *testing.T) {
 		}()
 		sq := seqs[si]
 		ias := make([]addr.IA, len(sq))
+		hasLocal := false
 		for i, j := range sq {
-			ias[i] = pool[j]
+			ias[i] = seqPool[j]
+			hasLocal = hasLocal || j == len(pool)
 		}
 		lastIdx := sq[len(sq)-1]
+		if lastIdx == len(pool) {
+			lastIdx = 0 // no interface leads to the local AS itself: such a beacon arrives from some other neighbour
+		}
 		backend, err := beaconsqlite.New(fmt.Sprintf("c25_%d_%d", time.Now().UnixNano(), dbSeq.Add(1)), c25Local,
 			&db.SqliteConfig{InMemory: true})
 		if err != nil {
@@ -550,6 +563,9 @@ func TestC25(t *testing.T) {
 		var variants []variant
 		for _, nl := range []bool{true, false} {
 			for _, sg := range sigs {
+				if hasLocal && (!nl || sg.kind != 0) {
+					continue // admission dimensions are explored on beacons without the local AS
+				}
 				nx := c25Local
 				if !nl {
 					nx = other
@@ -558,6 +574,88 @@ func TestC25(t *testing.T) {
 			}
 		}
 		asLoop, isdLoop := c25HasASLoop(ias), c25HasISDLoop(ias)
+		// the statement does not say whether a beacon that already contains a loop or the local AS is stored
+		unjudged := asLoop || hasLocal
+
+		// checkProp: the propagator runs once over whatever the store holds (the one beacon `ias`, with propagation
+		// usage or not); specification per egress interface
+		checkProp := func(svc *c25Service, hasProp bool, detail func() map[string]any,
+			viol func(string, func() map[string]any)) {
+			var sent []c25Sent
+			if pn := mc.Safely(func() { sent = svc.propagate(ctx) }); pn != nil {
+				viol("propagator-panic", func() map[string]any { d := detail(); d["panic"] = trunc(fmt.Sprint(pn), 500); return d })
+				return
+			}
+			sentOn := map[uint16]c25Sent{}
+			for _, s := range sent {
+				if _, dup := sentOn[s.egress]; dup {
+					viol("propagated-twice-on-one-interface", detail)
+				}
+				sentOn[s.egress] = s
+			}
+			nSends.Add(int64(len(sent)))
+			propType := 2 // child
+			if svc.cfg.core {
+				propType = 0
+			}
+			for j, n := range pool {
+				e := c25IfID(propType, j)
+				s, was := sentOn[e]
+				delete(sentOn, e)
+				nSendChecks.Add(1)
+				// the AS-level path the beacon describes once it is sent to n
+				full := append(append(append([]addr.IA{}, ias...), c25Local), n)
+				loopAS := c25HasASLoop(full)
+				loopISD := !svc.allowIL && c25HasISDLoop(full)
+				pd := func() map[string]any {
+					d := detail()
+					d["egress_interface"], d["egress_neighbour"], d["resulting_path"] = e, n.String(), fmt.Sprint(full)
+					d["propagation_policy_allows_isd_loops"] = svc.allowIL
+					if was {
+						d["sent_beacon"] = s.hops
+					}
+					return d
+				}
+				switch {
+				case was && !hasProp:
+					viol("propagated-without-propagation-usage", pd)
+				case was && s.dst != n:
+					viol("propagated-to-wrong-neighbour", pd)
+				case was && loopAS:
+					// is the repeated AS the local one (invisible in received entries + neighbour)?
+					if c25HasASLoop(append(append([]addr.IA{}, ias...), n)) {
+						viol("propagated-into-as-loop", pd)
+					} else {
+						viol("propagated-into-as-loop-via-local-as", pd)
+					}
+				case was && loopISD:
+					// does the code's view (received entries + neighbour, local AS left out) see the loop?
+					if c25HasISDLoop(append(append([]addr.IA{}, ias...), n)) {
+						viol("propagated-into-isd-loop", pd)
+					} else {
+						viol("propagated-into-isd-loop-via-local-isd", pd)
+						local["propagated:isd-loop-closed-by-local-isd"]++
+					}
+				case was:
+					local["propagated"]++
+				case hasProp && !loopAS && !loopISD:
+					viol("loop-free-propagation-missing", pd)
+				case hasProp && loopAS && hasLocal:
+					local["withheld:as-loop-local-as-already-on-beacon"]++
+				case hasProp && loopAS:
+					local["withheld:as-loop"]++
+				case hasProp:
+					local["withheld:isd-loop"]++
+				}
+			}
+			for e := range sentOn {
+				viol("propagated-on-non-propagation-interface", func() map[string]any {
+					d := detail()
+					d["egress_interface"] = e
+					return d
+				})
+			}
+		}
 
 		// one reception + one propagation run, compared with the specification
 		runCase := func(svc *c25Service, v variant, in c25Ingress) {
@@ -630,7 +728,7 @@ func TestC25(t *testing.T) {
 			if reason == "" && lenBlockUsage == 0 {
 				reason = "no-policy-accepts"
 			}
-			if reason == "" && !asLoop && wantUsage == 0 {
+			if reason == "" && !unjudged && wantUsage == 0 {
 				reason = "no-policy-accepts"
 			}
 			if stored {
@@ -656,7 +754,7 @@ func TestC25(t *testing.T) {
 						return d
 					})
 				}
-				if !asLoop {
+				if !unjudged {
 					if g.Usage != wantUsage {
 						k := "usage-extra/" + c25UsageName(g.Usage&^wantUsage)
 						if g.Usage&^wantUsage == 0 {
@@ -673,6 +771,8 @@ func TestC25(t *testing.T) {
 						cl += "(isd-loop)"
 					}
 					local[cl]++
+				} else if hasLocal {
+					local["stored:beacon-contains-local-as(unspecified)"]++
 				} else {
 					local["stored:as-loop-beacon"]++
 				}
@@ -680,6 +780,8 @@ func TestC25(t *testing.T) {
 				switch {
 				case reason != "":
 					local["rejected:"+reason]++
+				case hasLocal:
+					local["rejected:beacon-contains-local-as(unspecified)"]++
 				case asLoop:
 					local["rejected:as-loop-in-beacon(unspecified)"]++
 				default:
@@ -692,80 +794,17 @@ func TestC25(t *testing.T) {
 				}
 			}
 
-			// --- propagation: the propagator runs once; spec per egress interface
-			var sent []c25Sent
-			if pn := mc.Safely(func() { sent = svc.propagate(ctx) }); pn != nil {
-				viol("propagator-panic", func() map[string]any { d := detail(); d["panic"] = trunc(fmt.Sprint(pn), 500); return d })
-				return
-			}
-			sentOn := map[uint16]c25Sent{}
-			for _, s := range sent {
-				if _, dup := sentOn[s.egress]; dup {
-					viol("propagated-twice-on-one-interface", detail)
-				}
-				sentOn[s.egress] = s
-			}
-			nSends.Add(int64(len(sent)))
-			propType := 2 // child
-			if svc.cfg.core {
-				propType = 0
-			}
-			hasProp := stored && got[0].Usage&beacon.UsageProp != 0
-			for j, n := range pool {
-				e := c25IfID(propType, j)
-				s, was := sentOn[e]
-				delete(sentOn, e)
-				nSendChecks.Add(1)
-				// the AS-level path the beacon describes once it is sent to n
-				full := append(append(append([]addr.IA{}, ias...), c25Local), n)
-				loopAS := c25HasASLoop(full)
-				loopISD := !svc.allowIL && c25HasISDLoop(full)
-				pd := func() map[string]any {
-					d := detail()
-					d["egress_interface"], d["egress_neighbour"], d["resulting_path"] = e, n.String(), fmt.Sprint(full)
-					d["propagation_policy_allows_isd_loops"] = svc.allowIL
-					if was {
-						d["sent_beacon"] = s.hops
-					}
-					return d
-				}
-				switch {
-				case was && !hasProp:
-					viol("propagated-without-propagation-usage", pd)
-				case was && s.dst != n:
-					viol("propagated-to-wrong-neighbour", pd)
-				case was && loopAS:
-					viol("propagated-into-as-loop", pd)
-				case was && loopISD:
-					// does the code's view (received entries + neighbour, local AS left out) see the loop?
-					if c25HasISDLoop(append(append([]addr.IA{}, ias...), n)) {
-						viol("propagated-into-isd-loop", pd)
-					} else {
-						viol("propagated-into-isd-loop-via-local-isd", pd)
-						local["propagated:isd-loop-closed-by-local-isd"]++
-					}
-				case was:
-					local["propagated"]++
-				case hasProp && !loopAS && !loopISD:
-					viol("loop-free-propagation-missing", pd)
-				case hasProp && loopAS:
-					local["withheld:as-loop"]++
-				case hasProp:
-					local["withheld:isd-loop"]++
-				}
-			}
-			for e := range sentOn {
-				viol("propagated-on-non-propagation-interface", func() map[string]any {
-					d := detail()
-					d["egress_interface"] = e
-					return d
-				})
-			}
+			// --- propagation
+			checkProp(svc, stored && got[0].Usage&beacon.UsageProp != 0, detail, viol)
 		}
 
 		// Part A: every policy configuration, valid reception (core link into a core AS, parent link otherwise)
 		good := variants[0]
-		for _, cfg := range cfgs {
+		partA := cfgs
+		if hasLocal {
+			partA = locCfgs
+		}
+		for _, cfg := range partA {
 			if r.OutOfBudget() {
 				capped.Store(true)
 				return
@@ -780,6 +819,45 @@ func TestC25(t *testing.T) {
 				in = ingresses[0]
 			}
 			runCase(svc, good, in)
+		}
+		// Part C: the beacon is put directly into the beacon DB with every usage of the store kind (whatever the
+		// store holds - however it got there - must not be propagated into a loop)
+		for _, cfg := range locCfgs {
+			svc, err := c25NewService(cfg, backend, intfs, ver)
+			if err != nil {
+				r.HarnessError("store: %v", err)
+				return
+			}
+			nCases.Add(1)
+			lt := 1
+			if cfg.core {
+				lt = 0
+			}
+			var usage beacon.Usage
+			for _, u := range cfg.usageBits() {
+				usage |= u
+			}
+			ifID := c25IfID(lt, lastIdx)
+			if _, err := backend.InsertBeacon(ctx, beacon.Beacon{Segment: good.ps, InIfID: ifID}, usage); err != nil {
+				r.HarnessError("direct InsertBeacon: %v", err)
+				return
+			}
+			detail := func() map[string]any {
+				return map[string]any{"config": svc.cfg.String(), "beacon": fmt.Sprint(ias), "ingress": "inserted directly into the beacon DB",
+					"stored_usage": c25UsageName(usage), "ingress_interface": ifID, "local": c25Local.String()}
+			}
+			viol := func(key string, detail func() map[string]any) {
+				violRanked(key, fmt.Sprintf("%d/%04d/zz-direct/%03d%s", len(ias), si, len(svc.cfg.String()), svc.cfg.String()), detail)
+			}
+			local["direct-insert"]++
+			checkProp(svc, true, detail, viol)
+			if err := backend.DeleteBeacon(ctx, ""); err != nil {
+				r.HarnessError("DeleteBeacon: %v", err)
+				return
+			}
+		}
+		if hasLocal {
+			return
 		}
 		// Part B: admission dimensions
 		for _, cfg := range admCfgs {
